@@ -163,6 +163,7 @@ PLAN = {
              "lengths 0,1,2,4,5, trytocodon for all 21 residues and back; finite domain enumerated completely",
     ),
     "C15": dict(
+        tlaps=dict(quick=["TableFoldProof"]),
         gen=dict(quick=[("Gen_C15", "Gen_C15.cfg")]),
         traces=[("c15", (24, 200))],
         codecs={"c15": CODECS},
